@@ -9,6 +9,7 @@ import JubakoModel.Lemmas.FuncsDir
 import JubakoModel.Lemmas.FuncsSearch
 import JubakoModel.Lemmas.FuncsStats
 import JubakoModel.Lemmas.FuncsEntry
+import JubakoModel.Lemmas.FuncsParse
 
 namespace Jubako
 
@@ -279,5 +280,40 @@ example :
     (entryWrites none (srcPairs stores (pairProps ps vals))).map writesBytes = some (serializeProps stores none ps vals) ∧
       serializeProps stores none ps vals = [1, 2, 1, 44, 1, 4, 1, 2, 0, 0, 0, 0] := by
   decide
+
+/-- **Reading a value out of an entry follows the source**: `IntProperty::create`, `SignedProperty::create`
+    and `ContentProperty::create` (`reader/directory_pack/builder/property.rs`), translated on every run, are
+    `decodeProp` of the reader model for unsigned, signed and content-address properties stored in the entry or
+    defaulted, and for integers deported to a value store (the entry holds the key): same value, same error when the entry is too short — for every entry, offset and width (the
+    special cases of the source for 1, 2, 4 and 8 bytes included). -/
+theorem c02_value_decoding_is_source_decoding (stores : Nat → Outcome (ValueStoreTail × Bytes)) (e : Bytes) (off : Nat) (nm : Bytes)
+    (g : Nat → Nat → Option Nat → Outcome Bytes) :
+    (∀ sz dflt, (Generated.intPropertyCreate e off sz dflt none g).map' Val.u = decodeProp stores e ⟨off, nm, .uint sz dflt⟩) ∧
+    (∀ sz dflt, (Generated.signedPropertyCreate e off sz dflt none g).map' Val.s = decodeProp stores e ⟨off, nm, .sint sz dflt⟩) ∧
+    (∀ ps cs dflt, 1 ≤ ps → 1 ≤ cs → cs ≤ 4 →
+      (Generated.contentPropertyCreate (e.drop off) dflt ps cs).map' (fun x => Val.content x.1.1 x.1.2) =
+        decodeProp stores e ⟨off, nm, .content ps cs dflt⟩) ∧
+    (∀ vs sz ks store, stores store = .ok vs → sz < 256 →
+      (Generated.intPropertyCreate e off sz none (some (ks, store)) (fun _ key size => valueStoreGet vs key size)).map' Val.u =
+          decodeProp stores e ⟨off, nm, .deportedInt false sz store (.inr ks)⟩ ∧
+      (Generated.signedPropertyCreate e off sz none (some (ks, store)) (fun _ key size => valueStoreGet vs key size)).map' Val.s =
+          decodeProp stores e ⟨off, nm, .deportedInt true sz store (.inr ks)⟩) :=
+  ⟨fun sz dflt => gen_intPropertyCreate stores e off sz nm dflt g,
+   fun sz dflt => gen_signedPropertyCreate stores e off sz nm dflt g,
+   fun ps cs dflt h1 h2 h3 => gen_contentPropertyCreate stores e off ps cs nm dflt h1 h2 h3,
+   fun vs sz ks store hs hsz => ⟨gen_deportedIntCreate stores vs e off sz ks store nm hs hsz,
+     gen_deportedSignedCreate stores vs e off sz ks store nm hs hsz⟩⟩
+
+/-- **Reading an array out of an entry follows the source**: `ArrayProperty::create` translated on every run,
+    followed by `resolveArray` (`Array::resolve_to_vec`), is `decodeProp` of the reader model for array
+    properties (length field, inline prefix, value-store key; or the header's default), up to the text of the
+    panic of `value_id.unwrap()`. -/
+theorem c02_array_decoding_is_source_decoding (stores : Nat → Outcome (ValueStoreTail × Bytes)) (e : Bytes) (off : Nat) (nm : Bytes)
+    (lenSize : Option Nat) (fixedLen : Nat) (dep : Option (Nat × Nat)) (dflt : Option (Nat × Bytes × Option Nat))
+    (hoff : off ≤ e.length) (hl : ∀ l, lenSize = some l → 1 ≤ l ∧ l ≤ 3) (hd : ∀ ks st, dep = some (ks, st) → 1 ≤ ks) :
+    ((Generated.arrayPropertyCreate (e.drop off) lenSize fixedLen dep dflt).bind fun r =>
+        (resolveArray stores r.1 r.2.1 fixedLen r.2.2).map' Val.arr).Same
+      (decodeProp stores e ⟨off, nm, .array lenSize fixedLen dep dflt⟩) :=
+  gen_arrayPropertyCreate stores e off nm lenSize fixedLen dep dflt hoff hl hd
 
 end Jubako
